@@ -1,4 +1,8 @@
-// verification drivers compiled inside the crate (hook H6); one inline module per driver
+// verification drivers compiled inside the crate (hook H6); one inline module per driver.
+// Each driver is behind its own cargo feature (all on by default) so that a driver that no longer compiles
+// against a changed /repo does not take the other checks' drivers down with it: vplib.cargo_build retries
+// with `--no-default-features --features drv_<name>`.
+#[cfg(feature = "drv_c20")]
 #[allow(dead_code, unused_imports, clippy::all)]
 pub mod c20 {
     include!("drivers/c20.rs");
